@@ -27,7 +27,9 @@ KEYS = ["a", "b", "lr", "epoch", "note", "k1"]
 
 def meta_values():
     leaf = st.one_of(st.none(), st.booleans(), st.integers(-5, 5), st.floats(-2, 2, allow_nan=False, width=64), st.sampled_from(["", "x", "run-1"]),
-                     st.lists(st.floats(-1, 1, allow_nan=False, width=32), min_size=1, max_size=3).map(lambda v: {"__tensor__": v}))
+                     st.lists(st.floats(-1, 1, allow_nan=False, width=32), min_size=1, max_size=3).map(lambda v: {"__tensor__": v}),
+                     st.tuples(st.lists(st.integers(-3, 200), min_size=1, max_size=3), st.sampled_from(["float32", "int64", "uint8", "bool", "int32"])).map(
+                         lambda t: {"__tensor__": [abs(x) % 200 for x in t[0]], "dtype": t[1]}))
     return st.recursive(leaf, lambda ch: st.one_of(st.lists(ch, max_size=3), st.lists(ch, max_size=2).map(lambda v: {"__tuple__": v}),
                                                     st.dictionaries(st.sampled_from(KEYS), ch, max_size=2)), max_leaves=6)
 
@@ -40,6 +42,8 @@ def decode_meta(x):
     if isinstance(x, dict):
         if set(x.keys()) == {"__tensor__"}:
             return torch.tensor(x["__tensor__"], dtype=torch.float64)
+        if set(x.keys()) == {"__tensor__", "dtype"}:
+            return torch.tensor(x["__tensor__"]).to(getattr(torch, x["dtype"]))
         if set(x.keys()) == {"__tuple__"}:
             return tuple(decode_meta(v) for v in x["__tuple__"])
         return {k: decode_meta(v) for k, v in x.items()}
@@ -171,8 +175,6 @@ def check(case):
                 for net in state.networks:
                     for p in getattr(state, net).parameters():
                         p.data.copy_(torch.randn_like(p))
-                if spec["type"] == "density":
-                    state.rbm_ph.aux_bias.data.zero_()
             elif kind == "reinit":
                 state.reinitialize_parameters()      # creates NEW parameter objects (unlike the in-place 'randomise')
                 labels.add("reinit")
